@@ -39,8 +39,23 @@ def corpus(tier):
     return msgs
 
 
+def big_corpus():
+    """messages larger than the parser's line-size limit (64 KiB): fed one-shot vs in fixed-size reads"""
+    body = bytes((i * 13 + 5) % 251 for i in range(70000))
+    out = []
+    out.append(("req", "big-req-cl", b"POST /p HTTP/1.1\r\nHost: h\r\nContent-Length: 70000\r\n\r\n" + body, False))
+    out.append(("req", "big-req-chunked", b"POST /p HTTP/1.1\r\nHost: h\r\nTransfer-Encoding: chunked\r\n\r\n" +
+                httpgen.chunked_body([body]), False))
+    out.append(("rsp", "big-rsp-cl", b"HTTP/1.1 200 OK\r\nContent-Length: 70000\r\n\r\n" + body, False))
+    out.append(("rsp", "big-rsp-close", b"HTTP/1.1 200 OK\r\nConnection: close\r\n\r\n" + body, True))
+    out.append(("rsp", "big-rsp-chunked", b"HTTP/1.1 200 OK\r\nTransfer-Encoding: chunked\r\n\r\n" + httpgen.chunked_body([body[:35000], body[35000:]]), False))
+    small = b"POST /p HTTP/1.1\r\nHost: h\r\nContent-Length: 1700\r\n\r\n" + body[:1700]
+    out.append(("req", "big-req-pipelined-x4", small * 4 + b"GET /q HTTP/1.1\r\nHost: h\r\nX-Pad: " + b"p" * 60000 + b"\r\n\r\n", False))
+    return out
+
+
 def jobs(tier):
-    return [("C13", i) for i in range(len(corpus(tier)))]
+    return [("C13", i) for i in range(len(corpus(tier)))] + [("C13big", i) for i in range(len(big_corpus()))]
 
 
 _CORPUS = {}
@@ -95,8 +110,24 @@ def _brief(r):
                 n=len(res), leftover=left[:20], exc=exc)
 
 
+def run_big(i, reads):
+    kind, label, data, closes = big_corpus()[i]
+    base = httpgen.drive(kind, (data,), close_at_end=closes, maxmsgs=8)
+    frags = [data[k:k + reads] for k in range(0, len(data), reads)]
+    got = httpgen.drive(kind, frags, close_at_end=closes, maxmsgs=8)
+    if got != base:
+        return [("frag:big:%s:%s" % (kind, classify(label, base, got)), "%s (%d bytes) fed in %d-byte reads differs from one-shot: one-shot %r ; fragmented %r"
+                 % (label, len(data), reads, _brief(base), _brief(got)))]
+    return []
+
+
 def run_job(job, tier, seed):
     acc = Acc(job)
+    if job[0] == "C13big":
+        for reads in (4096, 65536, 1000, 70000 - 1, 33):
+            viols = run_big(job[1], reads)
+            acc.case(["big", job[1], reads], (job[1], reads, not viols), viols, sample=dict(message=big_corpus()[job[1]][1], reads=reads))
+        return acc.result()
     i = job[1]
     kind, label, data, closes = get(tier, i)
     n = len(data)
@@ -133,6 +164,8 @@ def run_job(job, tier, seed):
 
 
 def replay(job, case):
+    if case[0] == "big":
+        return run_big(int(case[1]), int(case[2]))
     i, cuts = case
     tier = "quick"
     import os
